@@ -45,6 +45,7 @@ func (propC02) Gen(r *Rng, tier string) *World {
 	if r.P(0.5) {
 		k.FailOp = true
 	}
+	k.RawConsts = r.P(0.3)
 	g := NewGen(r, k)
 	w := &World{Prop: "C02"}
 	w.Prog = g.Program()
